@@ -174,4 +174,5 @@ def _build(tier: str):
 def jobs(tier: str) -> list[Job]:
     return [Job('programs', 'hyp', lambda: _build(tier), 2500 if tier == 'quick' else 100000),
             Job('list-sweep', 'enum', sweeps.list_sweep, exhaustive=True),
-            Job('slot-sweep', 'enum', sweeps.slot_sweep, exhaustive=True)]
+            Job('slot-sweep', 'enum', sweeps.slot_sweep, exhaustive=True),
+            Job('insert-then-edit', 'enum', sweeps.insert_then_edit, exhaustive=True)]
